@@ -94,6 +94,30 @@ def eval_call(V, node, st):
         if sa is None:
             return sb
         return SV(STR, z3.If(ca, sa.z, sb.z))
+    if isinstance(f, ast.Name) and f.id in ('forall', 'exists') and V.spec_mode and len(node.args) == 1 \
+            and isinstance(node.args[0], ast.Lambda):
+        # forall(lambda c=T_ANY, k=T_STR: body): quantification over all values of the given types
+        lam = node.args[0]
+        names = [a.arg for a in lam.args.args]
+        tys = [V.ev(d, st) for d in lam.args.defaults]
+        if len(names) != len(tys) or not all(isinstance(t, MType) for t in tys):
+            raise Unsupported('forall needs one type default per bound variable')
+        sub = st.fork()
+        bound = []
+        for nm, t in zip(names, tys):
+            v = SV(t.t, z3.Const(fresh_name('qa_' + nm), sort_of(t.t)))
+            sub.env[nm] = v
+            bound.append(v.z)
+        n0 = len(sub.pc)
+        body = truthy(V.ev(lam.body, sub))
+        extra = sub.pc[n0:]
+        if f.id == 'forall':
+            if extra:
+                body = z3.Implies(z3.And(*extra), body)
+            return SV(BOOL, z3.ForAll(bound, body))
+        if extra:
+            body = z3.And(body, *extra)
+        return SV(BOOL, z3.Exists(bound, body))
     if isinstance(f, ast.Name) and f.id == 'old' and V.spec_mode:
         if not V.old_stack:
             raise Unsupported('old() outside a postcondition')
@@ -153,6 +177,12 @@ def eval_call(V, node, st):
         else:
             kwargs[k.arg] = V.ev(k.value, st)
     return apply(V, fn, args, kwargs, st, node)
+
+
+class MType:
+    """a type descriptor used as a value in quantifier forms"""
+    def __init__(self, t):
+        self.t = t
 
 
 class StarAny:
